@@ -113,6 +113,7 @@ func (propC07) Gen(r *Rng, tier string) *World {
 		k.NOps = r.Range(1, 3)
 	}
 	k.RawConsts = r.P(0.3)
+	k.TupleOp = r.P(0.3)
 	g := NewGen(r, k)
 	w := &World{Prop: "C07", Extra: map[string]string{}}
 	if tier == "thorough" {
@@ -137,7 +138,7 @@ func (propC07) Gen(r *Rng, tier string) *World {
 	}
 	w.Cfg = g.C
 	w.Cfg.ViaDirect = r.P(0.2)
-	w.Cfg.DirStyle = r.Intn(6)
+	w.Cfg.DirStyle = r.Intn(8)
 	w.Cfg.ViaAPI = r.P(0.4)
 	if r.P(0.35) {
 		w.Extra["engine"] = "inline"
